@@ -1,22 +1,30 @@
-"""contracts for nflows.transforms.splines.rational_quadratic"""
+"""contracts for nflows.transforms.splines.rational_quadratic.rational_quadratic_spline
+
+Lemma cuts (inserted by AST insertion, DESIGN 3.7):
+  rq.knots  after `heights = ...`      knots pinned to the box and strictly increasing, sizes positive, derivatives positive
+  rq.bin    after `input_heights = ..` facts about the selected bin only (everything else about the knots is forgotten)
+  rq.root   after `root = ...`         0 <= root <= 1 and S(root) = y, S the rational-quadratic of the bin (the spec function)
+"""
 import numpy as np
 import torch, z3
 from tsv.core import Sym, P, C, fresh, toreal, rv
 from tsv.harness import Harness
-from tsv.instrument import instrument, cut, patched
+from tsv.instrument import instrument, cut
 from tsv import terms as T
 from .common import *
 import nflows.transforms.splines.rational_quadratic as rqmod
 from nflows.transforms.base import InputOutsideDomain
 
 
-# ---- lemma cuts -----------------------------------------------------------------------------------------
+def _box(left, right, bottom, top):
+    return [toreal(P(v).reshape(-1)[0]) if isinstance(v, torch.Tensor) else toreal(v) for v in (left, right, bottom, top)]
+
+
+@cut("rq.knots")
 def knots_cut(cut_id, widths, cumwidths, heights, cumheights, derivatives, left, right, bottom, top):
-    """lemma: knots pinned to the box, strictly increasing; bin sizes are knot differences; knot derivatives positive.
-    Proved on the actual terms (cut-lemma obligations), then the tensors are replaced by fresh symbols that satisfy it."""
     ctx = C()
     K = widths.shape[-1]
-    box = [toreal(P(v).reshape(-1)[0]) if isinstance(v, torch.Tensor) else toreal(v) for v in (left, right, bottom, top)]
+    box = _box(left, right, bottom, top)
 
     def facts(w, cw, h, ch, d):
         f = [("cw0", cw[0] == box[0]), ("cwK", cw[K] == box[1]), ("ch0", ch[0] == box[2]), ("chK", ch[K] == box[3])]
@@ -29,53 +37,20 @@ def knots_cut(cut_id, widths, cumwidths, heights, cumheights, derivatives, left,
     for idx in np.ndindex(*widths.shape[:-1]):
         real = [list(P(t)[idx]) for t in ts]
         flat = [x for r in real for x in r]
-
-        def make():
-            return [[fresh(n) for _ in r] for n, r in zip(("w", "cw", "h", "ch", "d"), real)]
-        fr, new = memo_cut(ctx, cut_id, flat, make)
+        fr, new = memo_cut(ctx, cut_id, flat, lambda: [[fresh(n) for _ in r] for n, r in zip(("w", "cw", "h", "ch", "d"), real)])
         if new:
             for nm, f in facts(*real):
                 ctx.oblige("cut-lemma", f, label=f"{cut_id}.{nm}")
-            defs = [(a, b) for frs, rs in zip(fr, real) for a, b in zip(frs, rs)]
-            ctx.hard_cut(defs, [f for _, f in facts(*fr)], keep_terms=box)
+            ctx.hard_cut([(a, b) for frs, rs in zip(fr, real) for a, b in zip(frs, rs)], [f for _, f in facts(*fr)], keep_terms=box)
         for o, v in zip(outs, fr):
             o[idx] = v
     return tuple(Sym.make(o, t.dtype) for o, t in zip(outs, ts))
 
 
-cut("rq.knots")(knots_cut)
-
-
-def root_cut(cut_id, root, inputs, ich, ih, idl, d0, d1):
-    """lemma: root in [0,1] and the forward rational-quadratic evaluated at root gives the input y"""
-    ctx = C()
-    out = np.empty(root.shape, dtype=object)
-    for idx in np.ndindex(*root.shape):
-        y, yk, h, dl, a0, a1 = (P(t)[idx] for t in (inputs, ich, ih, idl, d0, d1))
-
-        def facts(r):
-            return [("ge0", r >= 0), ("le1", r <= 1),
-                    ("fwd", (y - yk) * (dl + (a0 + a1 - 2 * dl) * r * (1 - r)) == h * (dl * r * r + a0 * r * (1 - r)))]
-        actual = P(root)[idx]
-        th, new = memo_cut(ctx, cut_id, [actual], lambda: fresh("theta"))
-        if new:
-            for nm, f in facts(actual):
-                ctx.oblige("cut-lemma", f, label=f"{cut_id}.{nm}")
-            ctx.cutdefs.append(th == actual)
-            for _, f in facts(th):
-                ctx.facts.append([f, False]); ctx.solver.add(f)
-        out[idx] = th
-    return (Sym.make(out, root.dtype),)
-
-
-cut("rq.root")(root_cut)
-
+@cut("rq.bin")
 def bin_cut(cut_id, icw, ibw, ich, idl, d0, d1, ih, inputs, inverse, left, right, bottom, top):
-    """lemma about the selected bin: positive size, slope = h/w, positive knot derivatives, the input lies in the bin,
-    the bin lies in the box, and box corners correspond.  Everything else about the knots is forgotten afterwards."""
     ctx = C()
-    box = [toreal(P(v).reshape(-1)[0]) if isinstance(v, torch.Tensor) else toreal(v) for v in (left, right, bottom, top)]
-    L, Rr, Bt, Tp = box
+    L, Rr, Bt, Tp = box = _box(left, right, bottom, top)
     ts = (icw, ibw, ich, idl, d0, d1, ih)
     outs = [np.empty(t.shape, dtype=object) for t in ts]
     for idx in np.ndindex(*icw.shape):
@@ -96,18 +71,48 @@ def bin_cut(cut_id, icw, ibw, ich, idl, d0, d1, ih, inputs, inverse, left, right
             for nm, f in facts(*real):
                 ctx.oblige("cut-lemma", f, label=f"{cut_id}.{nm}")
             ctx.hard_cut(list(zip(fr, real)), [f for _, f in facts(*fr)], keep_terms=box + [x])
+        ctx.notes["bin"] = dict(cw=fr[0], w=fr[1], ch=fr[2], dl=fr[3], d0=fr[4], d1=fr[5], h=fr[6])
         for o, v in zip(outs, fr):
             o[idx] = v
     return tuple(Sym.make(o, t.dtype) for o, t in zip(outs, ts))
 
 
-cut("rq.bin")(bin_cut)
+def S_num_den(b, th):
+    """the rational quadratic of a bin at local coordinate th: S = ch + h * num / den"""
+    numr = b["dl"] * th * th + b["d0"] * th * (1 - th)
+    den = b["dl"] + (b["d0"] + b["d1"] - 2 * b["dl"]) * th * (1 - th)
+    return numr, den
+
+
+@cut("rq.root")
+def root_cut(cut_id, root, inputs):
+    ctx = C()
+    b = ctx.notes["bin"]
+    out = np.empty(root.shape, dtype=object)
+    for idx in np.ndindex(*root.shape):
+        y = P(inputs)[idx]
+
+        def G(r):
+            n, d = S_num_den(b, r)
+            return (y - b["ch"]) * d - b["h"] * n
+        actual = P(root)[idx]
+        th, new = memo_cut(ctx, cut_id, [actual], lambda: fresh("theta"))
+        if new:
+            for nm, f in (("ge0", actual >= 0), ("le1", actual <= 1), ("fwd", G(actual) == 0)):
+                ctx.oblige("cut-lemma", f, label=f"{cut_id}.{nm}")
+            ctx.cutdefs.append(th == actual)
+            for f in (th >= 0, th <= 1, G(th) == 0):
+                ctx.facts.append([f, False]); ctx.solver.add(f)
+            T.IMPLICIT[th.get_id()] = (th, G(th))
+        out[idx] = th
+    return (Sym.make(out, root.dtype),)
+
 
 RQ_CUTS = [
     ("heights", "rq.knots", ["widths", "cumwidths", "heights", "cumheights", "derivatives"], ["left", "right", "bottom", "top"]),
     ("input_heights", "rq.bin", ["input_cumwidths", "input_bin_widths", "input_cumheights", "input_delta", "input_derivatives",
                                  "input_derivatives_plus_one", "input_heights"], ["inputs", "inverse", "left", "right", "bottom", "top"]),
-    ("root", "rq.root", ["root"], ["inputs", "input_cumheights", "input_heights", "input_delta", "input_derivatives", "input_derivatives_plus_one"]),
+    ("root", "rq.root", ["root"], ["inputs"]),
 ]
 
 
@@ -115,24 +120,21 @@ def rq_instrumented():
     return instrument(rqmod.rational_quadratic_spline, RQ_CUTS)
 
 
-# ---- harnesses ----------------------------------------------------------------------------------------------
-def box_syms(ctx, square=False):
+def box_syms(h, ctx):
     l, r, b, t = (scal(n) for n in ("left", "right", "bottom", "top"))
     ctx.assume(el(l) < el(r)); ctx.assume(el(b) < el(t))
-    if square:
-        ctx.assume(el(b) == el(l)); ctx.assume(el(t) == el(r))
+    h.box = (l, r, b, t)
+    h.inputs.update(left=l, right=r, bottom=b, top=t)
     return l, r, b, t
 
 
 def rq_spline_harness(K, inverse, props, identity_init=False):
-    """the constrained function on one generic element (leading-shape polymorphism: DESIGN 3.3)"""
+    """the constrained function on one generic element (leading-shape polymorphism: DESIGN 3.3); symbolic box"""
     f = rq_instrumented()
 
     def run(h, ctx):
         x = h.inp("x", (1,)); uw = h.inp("uw", (1, K)); uh = h.inp("uh", (1, K)); ud = h.inp("ud", (1, K + 1))
-        l, r, b, t = box_syms(ctx, square=False)
-        h.box = (l, r, b, t)
-        h.inputs.update(left=l, right=r, bottom=b, top=t)
+        l, r, b, t = box_syms(h, ctx)
         return f(x, uw, uh, ud, inverse=inverse, left=l, right=r, bottom=b, top=t, enable_identity_init=identity_init)
 
     def dom(h, ctx):
@@ -146,18 +148,30 @@ def rq_spline_harness(K, inverse, props, identity_init=False):
         x = el(h.inputs["x"])
         l, r, b, t = (el(v) for v in h.box)
         lo, hi, olo, ohi = (b, t, l, r) if inverse else (l, r, b, t)
+        bn = ctx.notes.get("bin")
         if "C09" in props:
             ensure(h, ctx, "C09.range", z3.And(out >= olo, out <= ohi))
             ensure(h, ctx, "C09.endpoint-lo", z3.Implies(x == lo, out == olo))
             ensure(h, ctx, "C09.endpoint-hi", z3.Implies(x == hi, out == ohi))
-            if not inverse:
-                d = diff(out, x)
-                ensure(h, ctx, "C09.strictly-increasing", d > 0)
-                # continuity across knots: the value at the bin edges equals the knot heights
-                k = next(iter(ctx.intcache.values()))[1] if ctx.intcache else 0
-                knots = ctx.notes.get("knots")
+            ensure(h, ctx, "C09.strictly-increasing", diff(out, x) > 0)
+            if bn is not None:
+                xl, xr, yl, yr = (bn["ch"], bn["ch"] + bn["h"], bn["cw"], bn["cw"] + bn["w"]) if inverse else \
+                    (bn["cw"], bn["cw"] + bn["w"], bn["ch"], bn["ch"] + bn["h"])
+                ensure(h, ctx, "C09.continuous-at-left-knot", z3.Implies(x == xl, out == yl))
+                ensure(h, ctx, "C09.continuous-at-right-knot", z3.Implies(x == xr, out == yr))
         if "C01" in props and not inverse:
             logdet_is_log_derivative(h, ctx, "C01.logdet", out, ld, x)
+        if "C02" in props and bn is not None:
+            if not inverse:
+                th = (x - bn["cw"]) / bn["w"]
+                n, d = S_num_den(bn, th)
+                ensure(h, ctx, "C02.forward-is-spec", (out - bn["ch"]) * d == bn["h"] * n)
+            else:
+                th = (out - bn["cw"]) / bn["w"]
+                n, d = S_num_den(bn, th)
+                ensure(h, ctx, "C02.roundtrip_fi", z3.And((x - bn["ch"]) * d == bn["h"] * n, out >= bn["cw"], out <= bn["cw"] + bn["w"]))
+                # inverse function theorem: the log-det returned by inverse is the log-derivative of the inverse map
+                logdet_is_log_derivative(h, ctx, "C02.neg-logdet", out, ld, x)
 
     def native_call(h, inp):
         return rqmod.rational_quadratic_spline(tt(inp["x"]), tt(inp["uw"]), tt(inp["uh"]), tt(inp["ud"]), inverse=inverse,
@@ -169,32 +183,53 @@ def rq_spline_harness(K, inverse, props, identity_init=False):
         return bool((inp["x"] < lo).any() or (inp["x"] > hi).any())
 
     def native_clauses(h, inp, res):
-        out, ld = res
-        lo, hi, olo, ohi = (inp["bottom"], inp["top"], inp["left"], inp["right"]) if inverse else (inp["left"], inp["right"], inp["bottom"], inp["top"])
-        tol = 1e-9 * max(1.0, abs(float(ohi)), abs(float(olo)))
-        c = {"C09.range": bool((out >= olo - tol).all() and (out <= ohi + tol).all())}
-        x = inp["x"]
-        c["C09.endpoint-lo"] = not (x == lo).all() or abs(float(out[0]) - float(olo)) <= 1e-7 * max(1, abs(float(olo)))
-        c["C09.endpoint-hi"] = not (x == hi).all() or abs(float(out[0]) - float(ohi)) <= 1e-7 * max(1, abs(float(ohi)))
-        if not inverse:
-            xt = tt(inp["x"]).requires_grad_(True)
-            o2, ld2 = rqmod.rational_quadratic_spline(xt, tt(inp["uw"]), tt(inp["uh"]), tt(inp["ud"]), inverse=False, left=float(inp["left"]),
-                                                      right=float(inp["right"]), bottom=float(inp["bottom"]), top=float(inp["top"]),
-                                                      enable_identity_init=identity_init)
-            g, = torch.autograd.grad(o2.sum(), xt)
-            c["C09.strictly-increasing"] = bool((g > 0).all())
-            ok = bool((g > 0).all()) and bool(torch.allclose(torch.log(g), ld2.detach(), atol=1e-6, rtol=1e-6))
-            c["C01.logdet.value"] = ok; c["C01.logdet.positive"] = bool((g > 0).all())
-        return c
+        return spline_native_clauses(lambda x, inv: rqmod.rational_quadratic_spline(
+            x, tt(inp["uw"]), tt(inp["uh"]), tt(inp["ud"]), inverse=inv, left=float(inp["left"]), right=float(inp["right"]),
+            bottom=float(inp["bottom"]), top=float(inp["top"]), enable_identity_init=identity_init), inp, res, inverse)
 
     def sample(h, rng):
-        l = rng.normal() * 2; r = l + abs(rng.normal()) * 3 + 0.1
-        b = rng.normal() * 2; t = b + abs(rng.normal()) * 3 + 0.1
-        lo, hi = (b, t) if inverse else (l, r)
-        u = rng.choice([0.0, 1.0, rng.uniform()], p=[0.1, 0.1, 0.8])
-        return {"x": np.array([lo + u * (hi - lo)]), "uw": rng.normal(size=(1, K)) * 2, "uh": rng.normal(size=(1, K)) * 2,
-                "ud": rng.normal(size=(1, K + 1)) * 2, "left": np.array(l), "right": np.array(r), "bottom": np.array(b), "top": np.array(t)}
+        d = sample_box(rng, inverse)
+        d.update(uw=rng.normal(size=(1, K)) * 2, uh=rng.normal(size=(1, K)) * 2, ud=rng.normal(size=(1, K + 1)) * 2)
+        return d
 
     return Harness(f"rq_spline[K={K},inverse={inverse},ident={identity_init}]", run, post, raises={InputOutsideDomain: dom},
                    native_call=native_call, native_clauses=native_clauses, native_raises={InputOutsideDomain: outside}, sample=sample,
-                   functions=[rqmod.rational_quadratic_spline], config={"K": K, "inverse": inverse})
+                   functions=[rqmod.rational_quadratic_spline], config={"K": K, "inverse": inverse, "identity_init": identity_init})
+
+
+def sample_box(rng, inverse, same_scale=False):
+    l = rng.normal() * 2; r = l + abs(rng.normal()) * 3 + 0.1
+    b = rng.normal() * 2; t = b + (abs(rng.normal()) * 3 + 0.1 if not same_scale else (r - l))
+    lo, hi = (b, t) if inverse else (l, r)
+    u = rng.choice([0.0, 1.0, rng.uniform()], p=[0.1, 0.1, 0.8])
+    return {"x": np.array([lo + u * (hi - lo)]), "left": np.array(l), "right": np.array(r), "bottom": np.array(b), "top": np.array(t)}
+
+
+def spline_native_clauses(fn, inp, res, inverse, same_scale=False):
+    """numeric evaluation of the spline clauses on the real function (float64): used to replay counterexamples"""
+    out, ld = res
+    lo, hi, olo, ohi = (inp["bottom"], inp["top"], inp["left"], inp["right"]) if inverse else (inp["left"], inp["right"], inp["bottom"], inp["top"])
+    lo, hi, olo, ohi = (float(v) for v in (lo, hi, olo, ohi))
+    sc = max(1.0, abs(olo), abs(ohi))
+    c = {"C09.range": bool((out >= olo - 1e-9 * sc).all() and (out <= ohi + 1e-9 * sc).all())}
+    x = float(inp["x"].reshape(-1)[0])
+    c["C09.endpoint-lo"] = (x != lo) or abs(float(out[0]) - olo) <= 1e-7 * sc
+    c["C09.endpoint-hi"] = (x != hi) or abs(float(out[0]) - ohi) <= 1e-7 * sc
+    xt = tt(inp["x"]).requires_grad_(True)
+    o2, ld2 = fn(xt, inverse)
+    g, = torch.autograd.grad(o2.sum(), xt)
+    pos = bool((g > 0).all())
+    c["C09.strictly-increasing"] = pos
+    agree = pos and bool(torch.allclose(torch.log(g), ld2.detach(), atol=1e-6, rtol=1e-6))
+    if inverse:
+        c["C02.neg-logdet.value"] = agree; c["C02.neg-logdet.positive"] = pos
+        back, ldf = fn(out.detach(), False)
+        c["C02.roundtrip_fi"] = bool(torch.allclose(back, tt(inp["x"]), atol=1e-6 * max(1.0, abs(lo), abs(hi)), rtol=1e-6))
+    else:
+        c["C01.logdet.value"] = agree; c["C01.logdet.positive"] = pos
+    eps = 1e-7 * max(1.0, abs(hi - lo))
+    if lo + eps < x < hi - eps:
+        o_l, _ = fn(tt(inp["x"]) - eps, inverse); o_r, _ = fn(tt(inp["x"]) + eps, inverse)
+        cont = abs(float(o_r[0]) - float(o_l[0])) <= 1e-3 * max(1.0, abs(ohi - olo)) and float(o_l[0]) <= float(out[0]) <= float(o_r[0])
+        c["C09.continuous-at-left-knot"] = cont; c["C09.continuous-at-right-knot"] = cont
+    return c
